@@ -77,6 +77,23 @@ Theorem c19_batches_tosql_silent : forall bs orc, r_log (create_in_batches tosql
 Proof. exact batches_tosql_silent. Qed.
 Print Assumptions c19_batches_tosql_silent.
 
+(* statements derived through Session{NewDB: true} (hooks, selected associations, Preload) and
+   operations inside Begin()...Rollback(): still nothing but transaction control in DryRun *)
+Theorem c19_nested_silent : forall skip k b bf af orc,
+  forallb is_tx_event (r_log (execute_nested (dry_cfg skip) k b bf af (rst0 orc))) = true.
+Proof. exact nested_dry_silent. Qed.
+Print Assumptions c19_nested_silent.
+
+Theorem c19_nested_tosql_silent : forall k b bf af orc,
+  r_log (execute_nested tosql_cfg k b bf af (rst0 orc)) = [].
+Proof. exact nested_tosql_silent. Qed.
+Print Assumptions c19_nested_tosql_silent.
+
+Theorem c19_manual_tx_silent : forall skip k b orc,
+  forallb is_tx_event (r_log (manual_tx (dry_cfg skip) k b (rst0 orc))) = true.
+Proof. exact manual_tx_dry_silent. Qed.
+Print Assumptions c19_manual_tx_silent.
+
 (* non-vacuity *)
 Example c19_instance :
   let b := mk_built "UPDATE t SET a=? WHERE id = ?" [SStr "x"; SInt 1] false false false in
